@@ -79,7 +79,7 @@ def judge(ctx, sc, run):
             key = (1, sum(1 for p in tv.policies if p < h))
             ctx.count(f"mint-rank:{key[1]}")
         elif a["kind"] == "reward":
-            acct = b"\xf0" + h
+            acct = bytes([0xf0 | int(S.NET.value)]) + h        # script reward account on the scenario's network
             if acct not in tv.accounts:
                 bad("reward account of an attached script is not among the withdrawals", acct.hex(), [k.hex() for k in tv.accounts])
                 continue
@@ -230,7 +230,7 @@ def correspond(ctx, sc, run, tv):
     # the `ranks` op on what the body finally contains
     cx = run.context
     att = [a for a in sc["x"]["attach"] if "marker" in a]
-    rq = {"op": "ranks", "net": "0",
+    rq = {"op": "ranks", "net": str(int(S.NET.value)),
           "inputs": [[bytes(i.input.transaction_id.payload).hex(), str(int(i.input.index))] for i in b.inputs],
           "mint": [[bytes(p.payload).hex(), [[bytes(n.payload).hex(), str(int(q))] for n, q in a.items()]]
                    for p, a in (b.mint or {}).items()],
@@ -261,7 +261,7 @@ def evaluate(ctx, sc):
         if run.error_stage == "ops" and ctx.have_driver():
             # a refused call (mixed supplied / missing execution units): the model must refuse the calls too
             cx = run.context
-            m = ctx.driver().ok({"op": "rd.build", "net": "0", "ops": P.model_ops(sc, cx), "selected": [], "ev": [],
+            m = ctx.driver().ok({"op": "rd.build", "net": str(int(S.NET.value)), "ops": P.model_ops(sc, cx), "selected": [], "ev": [],
                                  "use_map": True, "remove_dup": True, "carried": [], "cost_models": [], "dflt": "a0"})
             ctx.traces += 1
             if m.get("error") != "ops":
